@@ -81,57 +81,56 @@ def _classify(facts, who):
     return v, d
 
 
+CASES = [('K', None, None, None), ('Q', None, None, None), (None, True, False, False), (None, False, False, False),
+         (None, False, False, True), (None, False, True, False), (None, False, True, True)]
+
+
 def board_path_classes(p):
-    """(dmap, umap, n_event_sites): path class vector -> set of board-primitive event sequences of do_move / undo_move"""
+    """(dmap, umap, n_event_sites): case vector (castling wing, e.p., promotion, capture) -> {board-primitive event sequence} of
+    do_move / undo_move. Events carry their arguments in normal form for White and for Black as mover ("w;b"); the walk is by
+    semantic case (rules/cases.py), so if/else versus conditional expressions makes no difference."""
+    from rules.cases import case_events
     do = p.fn(POS + '::do_move')
     undo = p.fn(POS + '::undo_move')
-    # ---- R1a board primitives, path class by path class --------------------------------------------
-    def paths(fn):
-        evn = [n for n, cfid, nm in fn.calls() if nm.startswith(POS + '::') and short(nm) in PRIMS]
-        return summaries(fn, _board_events(fn), _relevant_facts(fn, evn)), evn
-    dpaths, devn = paths(do)
-    upaths, uevn = paths(undo)
+    cas = p.enum('engine::Castling')
+    kd = p.enum('engine::PieceKind')
+    pc = p.enum('engine::Piece')
 
-    def vec_do(facts):
-        d = dict(facts)
-        cas = d.get('(castling(move)==NO_CASTLING)')
-        if cas is None:
-            raise AnalysisBroken('do_move: board path not governed by castling(move)')
-        if cas is False:
-            kk = d.get('(castling(move)==KING_CASTLING)')
-            return ('K' if kk else 'Q', None, None, None)
-        ep_atoms = [k for k in d if ('enpassant' in k) and 'to(move)' in k]
-        pawn_atoms = [k for k in d if 'PAWN' in k and 'from(move)' in k]
-        ep = bool(ep_atoms) and all(d[k] for k in ep_atoms) and all(d[k] for k in pawn_atoms)
-        cap_atoms = [k for k in d if k.startswith('(_board[to(move)]==NO_PIECE)')]
-        promo_atoms = [k for k in d if k == '(promotion(move)==NO_PIECE_KIND)']
-        if ep:
-            return (None, True, False, False)
-        if not cap_atoms or not promo_atoms:
-            raise AnalysisBroken('do_move: non-e.p. path without capture/promotion tests: %s' % sorted(d))
-        return (None, False, not d[promo_atoms[0]], not d[cap_atoms[0]])
+    def is_prim(nm):
+        return nm.startswith(POS + '::') and short(nm) in PRIMS
 
-    def vec_undo(facts):
-        d = dict(facts)
-        cas = d.get('(castling(move)==NO_CASTLING)')
-        if cas is None:
-            raise AnalysisBroken('undo_move: board path not governed by castling(move)')
-        if cas is False:
-            kk = d.get('(castling(move)==KING_CASTLING)')
-            return ('K' if kk else 'Q', None, None, None)
-        ep = d.get('enpassant(moveinfo)')
-        promo = d.get('(promotion(move)==NO_PIECE_KIND)')
-        cap = [k for k in d if 'captured_piece(moveinfo)' in k and k.endswith('==NO_PIECE)')]
-        if ep is None or promo is None or not cap:
-            raise AnalysisBroken('undo_move: path without enpassant/promotion/captured tests: %s' % sorted(d))
-        return (None, ep, not promo, not d[cap[0]])
+    def both(fn, valf, what):
+        evs = []
+        for c in (0, 1):
+            evs.append(case_events(fn, valf(c), {'side': c}, is_prim, what))
+        w, b = evs
+        if [e[0] for e in w] != [e[0] for e in b] or [len(e) for e in w] != [len(e) for e in b]:
+            raise AnalysisBroken('%s: the two colours execute different primitives in the case %s' % (fn.name, what))
+        return tuple((ew[0],) + tuple('%s;%s' % (x, y) for x, y in zip(ew[1:], eb[1:])) for ew, eb in zip(w, b))
 
     dmap, umap = {}, {}
-    for ev, facts in dpaths:
-        dmap.setdefault(vec_do(facts), set()).add(ev)
-    for ev, facts in upaths:
-        umap.setdefault(vec_undo(facts), set()).add(ev)
-    return dmap, umap, len(devn) + len(uevn)
+    for v in CASES:
+        wing, ep, promo, cap = v
+        what = 'castling-%s' % wing if wing else 'ep=%d,promo=%d,capture=%d' % (ep, promo, cap)
+
+        def dval(c, wing=wing, ep=ep, promo=promo, cap=cap):
+            mover = kd['PAWN'] if (ep or promo) else kd['KNIGHT']
+            victim_kind = kd['ROOK'] if cap else kd['NO_PIECE_KIND']
+            victim = (pc['B_ROOK'] if c == 0 else pc['W_ROOK']) if cap else pc['NO_PIECE']
+            return {'castling(move)': cas['KING_CASTLING'] if wing == 'K' else cas['QUEEN_CASTLING'] if wing == 'Q' else cas['NO_CASTLING'],
+                    'get_piece_kind(_board[from(move)])': mover, 'make_piece_kind(_board[from(move)])': mover,
+                    ('eq',) + tuple(sorted(['_enpassant_square', 'to(move)'])): bool(ep),
+                    '_board[to(move)]': victim, 'make_piece_kind(_board[to(move)])': victim_kind, 'get_piece_kind(_board[to(move)])': victim_kind,
+                    'promotion(move)': kd['QUEEN'] if promo else kd['NO_PIECE_KIND']}
+
+        def uval(c, wing=wing, ep=ep, promo=promo, cap=cap):
+            return {'castling(move)': cas['KING_CASTLING'] if wing == 'K' else cas['QUEEN_CASTLING'] if wing == 'Q' else cas['NO_CASTLING'],
+                    'enpassant(moveinfo)': 1 if ep else 0, 'promotion(move)': kd['QUEEN'] if promo else kd['NO_PIECE_KIND'],
+                    'captured_piece(moveinfo)': kd['ROOK'] if cap else kd['NO_PIECE_KIND']}
+        dmap[v] = {both(do, dval, what)}
+        umap[v] = {both(undo, uval, what)}
+    n_sites = len([1 for fn in (do, undo) for n, cfid, nm in fn.calls() if is_prim(nm)])
+    return dmap, umap, n_sites
 
 
 def check(ctx):
@@ -144,6 +143,7 @@ def check(ctx):
         ctx.analysed(f)
     cm = p.fn('engine::create_moveinfo')
 
+    PIECES.update(p.enum('engine::Piece'))
     dmap, umap, n_ev = board_path_classes(p)
     ctx.floor('C03.R1.board-events', n_ev, 16, 'board primitive call sites in do/undo')
     ctx.info['do_path_classes'] = len(dmap)
@@ -444,6 +444,9 @@ def _once_every_path(f, nodes):
     return True
 
 
+PIECES = {}
+
+
 def _inverse(dev, uev):
     """per symbolic square: undo ops == reversed inverses of do ops"""
     def per_square(evs):
@@ -470,14 +473,14 @@ def _inverse(dev, uev):
             if o != '+' or pc == 'moved':
                 continue
             pcn = pc.replace(' ', '')
-            if s == 'from(move)':
-                if pcn != 'make_piece(side,PAWN)':
+            if s == 'from(move);from(move)':
+                if pcn != '%d;%d' % (PIECES['W_PAWN'], PIECES['B_PAWN']):
                     return False, 'square from(move): re-created piece %s is not the mover\'s pawn' % pc
-            elif s == 'to(move)':
-                if 'captured_piece(moveinfo)' not in pcn or '!(side)' not in pcn:
-                    return False, 'square to(move): restored piece %s is not the captured piece of the opponent' % pc
+            elif s == 'to(move);to(move)':
+                if pcn != '%d;%d' % (PIECES['B_ROOK'], PIECES['W_ROOK']):
+                    return False, 'square to(move): restored piece %s is not the captured piece (of the opponent)' % pc
             else:
-                if pcn != 'make_piece(!(side),PAWN)':
+                if pcn != '%d;%d' % (PIECES['B_PAWN'], PIECES['W_PAWN']):
                     return False, 'square %s: restored piece %s is not the opponent\'s pawn' % (s, pc)
     return True, '%d squares' % len(d)
 
